@@ -221,6 +221,16 @@ def h_step(eng, case):
             a, b = agg.get(k), inst.agg_sv.get(k)
             same = And(same, (a is None) == (b is None)) if (a is None or b is None) else And(same, a == b)
         eng.check(same, 'ignored-vector-changes-nothing')
+    elif not supp and inst.state == SvsState.SyncSuppression:
+        # a suppression period starts with this vector: the aggregate is the merge of the vectors heard DURING the
+        # period, i.e. exactly this vector - whatever an earlier period left behind
+        for k in sorted(set(agg) | set(rdict)):
+            r = rdict.get(k)
+            got = inst.agg_sv.get(k)
+            if r is None:
+                eng.check(got is None or got == 0, 'aggregate-restarts-with-the-period', sig='stale-aggregate-entry-kept')
+            else:
+                eng.check(got is not None and got == r, 'aggregate-restarts-with-the-period', sig='aggregate-not-the-heard-vector')
     elif supp:
         # aggregate = entry-wise max(aggregate, received)
         for k in sorted(set(agg) | set(rdict)):
@@ -443,7 +453,7 @@ def cases(tier, seed):
         for rs in subsets:
             for lp in ([1, 1], [1, 0], [0, 0]):
                 for ap in ([1, 1, 1], [0, 1, 0], [0, 0, 0]):
-                    if state == 'steady' and ap != [0, 0, 0]:
+                    if state == 'steady' and ap == [0, 1, 0]:
                         continue
                     # the width of each encoded number forks 4 ways: full range for single entries, one width class
                     # (1 byte / 8 bytes) per case for larger vectors
